@@ -118,6 +118,11 @@ impl IsaGen {
                     _ => var("v"),
                 };
                 alts.push(SubAlt { op: POp::Param { name: "v".into(), ty }, prod, size });
+                if t.chance(1, 2) {
+                    // a second expression alternative with an overlapping range: both match the same text
+                    let ty2 = if matches!(ty, PType::U(_)) { PType::S(size) } else { PType::U(size) };
+                    alts.push(SubAlt { op: POp::Param { name: "v".into(), ty: ty2 }, prod: var("v"), size });
+                }
             }
             isa.subrules.push(SubRule { name: SUBNAMES[si].to_string(), alts });
         }
